@@ -48,6 +48,9 @@ func (interp *Interpreter) importSrc(rPath, importPath string, skipTest bool) (s
 		return "", fmt.Errorf("import cycle not allowed\n\timports %s", importPath)
 	}
 	interp.rdir[importPath] = true
+	// The mark only denotes an import in progress: it must not make a later
+	// attempt fail with a false import cycle if this one fails.
+	defer delete(interp.rdir, importPath)
 
 	files, err := fs.ReadDir(interp.opt.filesystem, dir)
 	if err != nil {
